@@ -38,26 +38,26 @@ acorr.frozen = ["blk"]      # eager code: nothing runs between the iterations; t
 from pyvc import sym as _sym
 ROWS = _sym._Prim("Rows", z3.ArraySort(INT, REAL))
 _LMS = z3.Function("LMS", INT, INT, INT, REAL)
-_NT = "(length(blk) - max_lag)"
+_NT = "(length(blk) - now(max_lag))"
 lag_matrix = Contract(
     name="lag_matrix", qual="audiolazy/lazy_analysis.py::lag_matrix", kind="function", props=["C10"],
     modes={"max_lag-given": Mode(params=dict(blk=ListOf(Real), max_lag=Int), requires=["max_lag >= 0"], raises={"ValueError": "max_lag >= length(blk)"}),
-           "max_lag=None": Mode(params=dict(blk=ListOf(Real), max_lag=Const(None)), requires=["length(blk) >= 1"], note="max_lag defaults to len(blk) - 1")},
+           "max_lag=None": Mode(params=dict(blk=ListOf(Real), max_lag=Const(None)), requires=["length(blk) >= 1"], ensures=[("S:max_lag-defaults-to-len-1", "now(max_lag) == length(blk) - 1")], note="max_lag defaults to len(blk) - 1; now(max_lag) is the value the code binds")},
     axioms=[("def:LMS(i,j,0)", "forall(lambda a: forall(lambda b: LMS(a, b, 0) == 0))")],
     comps={1: Comp(elem=ROWS, ensures=[]), 2: Comp(elem=Real, ensures=[])},
     loops={1: Loop(inv=[("C:count", "nout == pos(_it1)"),
-                        ("C:rows-so-far", "forall(lambda r: forall(lambda c: implies(0 <= r and r < nout and 0 <= c and c <= max_lag, out[r][c] == LMS(c, r, %s) and outlen[r] == max_lag + 1)))" % _NT)]),
+                        ("C:rows-so-far", "forall(lambda r: forall(lambda c: implies(0 <= r and r < nout and 0 <= c and c <= now(max_lag), out[r][c] == LMS(c, r, %s) and outlen[r] == now(max_lag) + 1)))" % _NT)]),
            2: Loop(inv=[("C:count", "nout == pos(_it2)"),
                         ("C:cells-so-far", "forall(lambda c: implies(0 <= c and c < nout, out[c] == LMS(c, j, %s)))" % _NT)])},
     yields={"g2": Yield(post=[("S:cell-(i,j)-is-the-defining-sum", "result == LMS(k, j, %s)" % _NT)]),
             "g1": Yield(post=[("S:row-j-has-max_lag+1-cells-each-the-defining-sum",
-                               "length(result) == max_lag + 1 and forall(lambda i: implies(0 <= i and i <= max_lag, arr(result)[i] == LMS(i, k, %s)))" % _NT)])},
-    ensures=[("S:(max_lag+1)-rows", "length(result) == max_lag + 1"),
-             ("S:every-cell-is-the-defining-sum", "forall(lambda r: forall(lambda c: implies(0 <= r and r <= max_lag and 0 <= c and c <= max_lag, "
-              "arr(result)[r][c] == LMS(c, r, %s) and rowlen(result, r) == max_lag + 1)))" % _NT)],
+                               "length(result) == now(max_lag) + 1 and forall(lambda i: implies(0 <= i and i <= now(max_lag), arr(result)[i] == LMS(i, k, %s)))" % _NT)])},
+    ensures=[("S:(max_lag+1)-rows", "length(result) == now(max_lag) + 1"),
+             ("S:every-cell-is-the-defining-sum", "forall(lambda r: forall(lambda c: implies(0 <= r and r <= now(max_lag) and 0 <= c and c <= now(max_lag), "
+              "arr(result)[r][c] == LMS(c, r, %s) and rowlen(result, r) == now(max_lag) + 1)))" % _NT)],
     spec_env={"LMS": UFn(_LMS, 3)}, default_elem=Real, replay="oracles.bounded_adapter:c10",
     stated=["lag_matrix(blk, max_lag)[j][i] == sum_{n=max_lag}^{len-1} blk[n-i]*blk[n-j] for every block and order; ValueError unless the block is longer than max_lag"])
-lag_matrix.sums = {3: dict(partial="LMS(i, j, nterms)", term="arr(blk)[max_lag + nterms - i] * arr(blk)[max_lag + nterms - j]")}
+lag_matrix.sums = {3: dict(partial="LMS(i, j, nterms)", term="arr(blk)[now(max_lag) + nterms - i] * arr(blk)[now(max_lag) + nterms - j]")}
 lag_matrix.frozen = ["blk"]
 lag_matrix.assumptions = ["sum(generator) is the left fold with + from 0",
                           "LMS(i, j, c) is the specification function defined by LMS(i, j, 0) = 0, LMS(i, j, c+1) = LMS(i, j, c) + blk[max_lag+c-i]*blk[max_lag+c-j]"]
